@@ -87,7 +87,7 @@ def run_property(prop, tier="quick", seed=0, patch=None, quiet=False, only_units
         all_h = [h for h in all_h if h.unit in only_units]
     if all_h:
         with kani.Lock():
-            t, mods2, lost = kani.prepare("tree" + tree_suffix, patch=patch)
+            t, mods2, lost = kani.prepare("tree" + tree_suffix, patch=patch, only_harness_names=set(h.name for h in all_h))
             out["lost"].update(lost)
             hs = []
             for h in all_h:
